@@ -18,6 +18,7 @@ import (
 	"github.com/ipfs/go-graphsync"
 	"github.com/ipfs/go-graphsync/ipldutil"
 	gsmsg "github.com/ipfs/go-graphsync/message"
+	"github.com/ipfs/go-graphsync/panics"
 	"github.com/ipfs/go-graphsync/responsemanager/hooks"
 	"github.com/ipfs/go-graphsync/responsemanager/responseassembler"
 )
@@ -46,6 +47,7 @@ type ResponseTask struct {
 	Traverser      ipldutil.Traverser
 	Signals        ResponseSignals
 	ResponseStream ResponseStream
+	PanicCallback  panics.CallBackFn
 }
 
 // ResponseSignals are message channels to communicate between the manager and the QueryExecutor
@@ -118,7 +120,7 @@ func (qe *QueryExecutor) executeQuery(
 	ctx context.Context, p peer.ID, rt ResponseTask) error {
 
 	// Execute the traversal operation, continue until we have reason to stop (error, pause, complete)
-	err := qe.runTraversal(ctx, p, rt)
+	err := qe.runTraversalRecoveringPanics(ctx, p, rt)
 
 	_, isPaused := err.(hooks.ErrPaused)
 	if isPaused {
@@ -179,6 +181,17 @@ func (qe *QueryExecutor) checkForUpdates(
 			return nil
 		}
 	}
+}
+
+// runTraversalRecoveringPanics runs the traversal and turns a panic raised on this goroutine (block
+// loads run here, not on the traverser's goroutine) into an error for this response
+func (qe *QueryExecutor) runTraversalRecoveringPanics(ctx context.Context, p peer.ID, taskData ResponseTask) (err error) {
+	defer func() {
+		if rerr := panics.MakeHandler(taskData.PanicCallback)(recover()); rerr != nil {
+			err = rerr
+		}
+	}()
+	return qe.runTraversal(ctx, p, taskData)
 }
 
 func (qe *QueryExecutor) runTraversal(ctx context.Context, p peer.ID, taskData ResponseTask) error {
